@@ -446,7 +446,7 @@ func runC02(c *Ctx) {
 			ret := false
 			for _, r := range returnsOf(inserter) {
 				rv := returnedValues(r)
-				if len(rv) > 0 && keyBase != nil && rv[0] == keyBase {
+				if len(rv) > 0 && keyBase != nil && (rv[0] == keyBase || sameCellValue(keyBase, rv[0])) {
 					ret = true
 				}
 			}
